@@ -25,6 +25,7 @@ import (
 	"github.com/hashicorp/nodeenrollment/registration"
 	"github.com/hashicorp/nodeenrollment/rotation"
 	"github.com/hashicorp/nodeenrollment/storage/inmem"
+	"github.com/hashicorp/nodeenrollment/storage/file"
 	teststore "github.com/hashicorp/nodeenrollment/storage/testing"
 	nodetls "github.com/hashicorp/nodeenrollment/tls"
 	"github.com/hashicorp/nodeenrollment/types"
@@ -42,6 +43,8 @@ type Cfg struct {
 	Nidl     bool     `json:"nidl"`
 	SO       bool     `json:"so"`   // store-once back end
 	NidE     bool     `json:"nide"` // node-id lookups answer unknown ids with an empty set instead of not-found
+	BE       string   `json:"be"`   // server storage back end: "" / inmem | file
+	RmErr    bool     `json:"rmerr"`
 	CertKeys []string `json:"certKeys"`
 	Tokens   []string `json:"tokens"`
 }
@@ -185,6 +188,14 @@ func Run(bh Behaviour, seed int64) ([]Line, error) {
 		}
 		wc.Inner = so
 	}
+	if bh.Cfg.BE == "file" {
+		fs, err := file.New(context.Background())
+		if err != nil {
+			return nil, err
+		}
+		defer fs.Cleanup(context.Background())
+		wc.Inner = fs
+	}
 	w, err := world.New(wc)
 	if err != nil {
 		return nil, err
@@ -197,7 +208,7 @@ func Run(bh Behaviour, seed int64) ([]Line, error) {
 		return nil, fmt.Errorf("init roots: %w", err)
 	}
 	r := &run{w: w, cfg: bh.Cfg}
-	cfgMap := map[string]any{"sw": bh.Cfg.SW, "nidl": bh.Cfg.Nidl, "so": bh.Cfg.SO}
+	cfgMap := map[string]any{"sw": bh.Cfg.SW, "nidl": bh.Cfg.Nidl, "so": bh.Cfg.SO, "rmerr": bh.Cfg.BE == "file"}
 	var lines []Line
 	for i, op := range bh.Ops {
 		ln := Line{Tr: bh.Id, I: i + 1, Cfg: cfgMap, Op: op, Obs: map[string]any{}}
@@ -399,6 +410,10 @@ func (r *run) step(op map[string]any, ln *Line) {
 		switch s(op, "life") {
 		case "tiny":
 			extra = append(extra, nodeenrollment.WithMaximumServerLedActivationTokenLifetime(time.Nanosecond))
+		case "zero":
+			extra = append(extra, nodeenrollment.WithMaximumServerLedActivationTokenLifetime(0))
+		case "neg":
+			extra = append(extra, nodeenrollment.WithMaximumServerLedActivationTokenLifetime(-time.Hour))
 		case "mid":
 			if !w.AgeBoundary.IsZero() {
 				extra = append(extra, nodeenrollment.WithMaximumServerLedActivationTokenLifetime(t0.Sub(w.AgeBoundary)))
@@ -410,6 +425,63 @@ func (r *run) step(op map[string]any, ln *Line) {
 		}
 		setErr(err)
 		r.classifyFetch(op, resp, err, ln)
+
+	case "FetchRace":
+		// two overlapping fetches presenting the same token for different keys: A is parked right before it removes
+		// the token record (it has loaded and checked it), B runs to completion, A goes on
+		tok, ok := w.Tokens[s(op, "t")]
+		ka, kb := s(op, "ka"), s(op, "kb")
+		cur := r.state()
+		if tst := cur.Tokens[s(op, "t")].St; !ok || !tok.Stored || ka == kb || cur.Nodes[ka].Present || cur.Nodes[kb].Present || (tst != "fresh" && tst != "old") {
+			ln.Res = "skip"
+			return
+		}
+		want := "inmem"
+		if r.cfg.BE == "file" {
+			want = "file"
+		}
+		if s(op, "be") != want {
+			ln.Res = "skip"
+			return
+		}
+		reqA, err := w.BuildFetch(world.FetchSpec{K: ka, E: s(op, "e"), Nonce: s(op, "t")})
+		if err != nil {
+			panic(err)
+		}
+		reqB, err := w.BuildFetch(world.FetchSpec{K: kb, E: s(op, "e"), Nonce: s(op, "t")})
+		if err != nil {
+			panic(err)
+		}
+		var respB *types.FetchNodeCredentialsResponse
+		var errB error
+		fired := false
+		w.Rec.Gate = func(o world.OpRec) {
+			if !fired && o.Op == "Remove" && o.Type == "ServerLedActivationToken" {
+				fired = true
+				respB, errB = registration.FetchNodeCredentials(w.Ctx, w.Store, reqB, w.Opts()...)
+				_ = r.state() // number B's server key before A's (generation ids are given in order of first observation)
+			}
+		}
+		respA, errA := registration.FetchNodeCredentials(w.Ctx, w.Store, reqA, w.Opts()...)
+		w.Rec.Gate = nil
+		issued := func(resp *types.FetchNodeCredentialsResponse, err error) bool {
+			return err == nil && resp != nil && len(resp.EncryptedNodeCredentials) > 0
+		}
+		a, bb := issued(respA, errA), issued(respB, errB)
+		ln.Obs["parked"] = fired
+		switch {
+		case !fired:
+			ln.Res = "harness-error"
+		case a && bb:
+			ln.Res = "both"
+		case bb:
+			ln.Res = "onlyB"
+		case a:
+			ln.Res = "onlyA"
+		default:
+			ln.Res = "none"
+		}
+		setErr(errA)
 
 	case "Submit":
 		r.submit(op, ln)
